@@ -148,15 +148,8 @@ func (c *c24cmp) walk(a, b reflect.Value, tpath, ipath string) {
 }
 
 func c24tail(tpath, name string) string {
-	// tpath looks like "A.f" or "A.f>B.g"; keep only the last segment as context
-	last := tpath
-	if i := strings.LastIndex(tpath, ">"); i >= 0 {
-		last = tpath[i+1:]
-	}
-	if last == "" {
-		return name
-	}
-	return last + ">" + name
+	// the Key names only the innermost struct and field
+	return name
 }
 
 func c24intStr(t reflect.Type, v int64) string {
@@ -264,12 +257,13 @@ var c24forkTop = map[*ast.Object]bool{}
 
 func c24forkPkgLevel(o *ast.Object) bool { return c24forkTop[o] }
 
-// c24markForkTop records the objects declared by top-level declarations of the fork's result.
-func c24markForkTop(nodes []ast.Node) {
-	c24forkTop = map[*ast.Object]bool{}
+// c24topObjects: the objects declared by top-level declarations (package level), found by the declarations'
+// structure (the reference's file scope does not list `_`, the fork's package scope is not reachable).
+func c24topObjects(nodes []ast.Node) map[*ast.Object]bool {
+	m := map[*ast.Object]bool{}
 	mark := func(id *ast.Ident) {
 		if id != nil && id.Obj != nil {
-			c24forkTop[id.Obj] = true
+			m[id.Obj] = true
 		}
 	}
 	for _, n := range nodes {
@@ -291,4 +285,5 @@ func c24markForkTop(nodes []ast.Node) {
 			}
 		}
 	}
+	return m
 }
